@@ -101,7 +101,7 @@ def run(ctx: vlib.Ctx):
             what = None
             try:
                 got = enc.encode(v)
-                if not gen.same(got, exp):
+                if not gen.same_ordered(got, exp):
                     what = f"encode differs from the reference: {gen.py_src(got)[:200]} vs {gen.py_src(exp)[:200]}"
                 elif no_any and not gen.is_basic(got):
                     what = "result is not made of str/int/float/bool/None/list/dict"
@@ -116,7 +116,7 @@ def run(ctx: vlib.Ctx):
                 obs = f"exc:{type(e).__name__}"
             if what is None and t.kind == "data" and fam.get(t.name).mixin:
                 got2 = v.to_dict()
-                if not gen.same(got2, exp):
+                if not gen.same_ordered(got2, exp):
                     what = f"to_dict differs from the reference: {gen.py_src(got2)[:200]}"
                     obs = "ok:" + gen.py_src(got2)
             if what:
@@ -141,7 +141,7 @@ def run(ctx: vlib.Ctx):
                 exp = ref_encode_native(fmt, t, v, fam, ns)
                 try:
                     got = enc.encode(v)
-                    ok = gen.same(got, exp)
+                    ok = gen.same_ordered(got, exp)
                     obs = "ok:" + gen.py_src(got)
                 except Exception as e:
                     ok = False
